@@ -51,14 +51,25 @@ Proof. intro. rewrite event_key_shape. apply has_prefix_app. Qed.
 Lemma key_not_below_prefix : forall id, bytes_ltb (event_key id) event_prefix = false.
 Proof. intro. rewrite event_key_shape. apply bytes_ltb_prefix_nlt. Qed.
 
+Lemma event_key_length : forall id, List.length (event_key id) = 24%nat.
+Proof.
+  intro id. rewrite event_key_shape, app_length. unfold hex16. rewrite hexw_length. reflexivity.
+Qed.
+
 (* from here on the codec is used through the lemmas above only *)
 Opaque event_key parse_event_id event_prefix.
 
 (* ================================================================== *)
-(* the bucket as a list of entries                                     *)
+(* the bucket: events interleaved with inert foreign entries           *)
 
-Definition key_of (e : entry) : bytes * (N * N) := (event_key (e_id e), (e_typ e, e_item e)).
+Definition key_of (e : entry) : bytes * option (N * N) := (event_key (e_id e), Some (e_typ e, e_item e)).
 Definition kv_of (L : list entry) : kvstore := map key_of L.
+
+(* a foreign entry Recover cannot take for an event: its key is not a canonical event key, and
+   it is outside the scanned prefix, or its key does not parse, or its value does not decode *)
+Definition inert (x : bytes * option (N * N)) : Prop :=
+  List.length (fst x) <> 24%nat /\
+  (has_prefix event_prefix (fst x) = false \/ parse_event_id (fst x) = None \/ snd x = None).
 
 (* ids strictly increasing and within 1 .. s *)
 Definition ids_ok (L : list entry) (s : N) : Prop :=
@@ -81,55 +92,301 @@ Proof.
   rewrite Forall_forall in R |- *. intros x Hx. specialize (R x Hx). lia.
 Qed.
 
-Lemma kv_put_append : forall L s id t i, ids_ok L s -> s < id -> id < two64N ->
-  kv_put (event_key id) (t, i) (kv_of L) = kv_of (L ++ [mkEntry id t i]).
-Proof.
-  intros L s id t i [_ R] Hs Hid. induction L as [|e L IH]; [reflexivity|].
-  inversion R as [|? ? [He1 He2] Rt]; subst.
-  cbn [kv_put kv_of map key_of app fst snd].
-  assert (Lt : bytes_ltb (event_key (e_id e)) (event_key id) = true) by (apply key_order; lia).
-  rewrite (bytes_ltb_asym _ _ Lt).
-  assert (Ne : bytes_eqb (event_key id) (event_key (e_id e)) = false).
-  { apply bytes_eqb_neq. intro E. rewrite E, bytes_ltb_irrefl in Lt. discriminate. }
-  rewrite Ne. f_equal. apply IH. exact Rt.
-Qed.
-
 Lemma filter_id : forall (A : Type) (f : A -> bool) l, (forall x, In x l -> f x = true) -> filter f l = l.
 Proof.
   induction l as [|a l IH]; intro H; simpl; [reflexivity|].
   rewrite (H a (or_introl eq_refl)). f_equal. apply IH. intros x Hx. apply H. right. exact Hx.
 Qed.
 
-Lemma kv_delete_filter : forall L s id, ids_ok L s -> s < two64N -> id < two64N ->
-  kv_delete (event_key id) (kv_of L) = kv_of (filter (fun e => negb (N.eqb (e_id e) id)) L).
+(* order-preserving interleaving of the events A and the foreign entries F *)
+Inductive Merge : kvstore -> kvstore -> kvstore -> Prop :=
+| M_nil : Merge [] [] []
+| M_ev : forall a A F kv, Merge A F kv -> Merge (a :: A) F (a :: kv)
+| M_fo : forall f A F kv, Merge A F kv -> Merge A (f :: F) (f :: kv).
+
+Definition blt (a b : bytes) : Prop := bytes_ltb a b = true.
+Definition ksorted (kv : kvstore) : Prop := StronglySorted blt (map fst kv).
+
+Lemma merge_in_l : forall A F kv a, Merge A F kv -> In a A -> In a kv.
 Proof.
-  intros L s id [S R] Hs Hid. induction L as [|e L IH]; [reflexivity|].
-  simpl in S. inversion S as [|? ? St He]; subst. inversion R as [|? ? [He1 He2] Rt]; subst.
-  simpl. destruct (bytes_eqb (event_key id) (event_key (e_id e))) eqn:E.
-  - apply bytes_eqb_eq in E. apply key_inj in E; [|exact Hid|lia]. subst id.
-    rewrite N.eqb_refl. simpl.
-    (* every later id is larger: nothing else is filtered *)
-    f_equal. symmetry. apply filter_id.
-    intros x Hx. apply negb_true_iff. apply N.eqb_neq.
-    rewrite Forall_forall in He. specialize (He (e_id x) (in_map _ _ _ Hx)). lia.
-  - assert (Ne : N.eqb (e_id e) id = false).
-    { apply N.eqb_neq. intro C. subst id. rewrite bytes_eqb_refl in E. discriminate. }
-    rewrite Ne. simpl. fold (key_of e). f_equal. apply IH; assumption.
+  intros A F kv a M. induction M; intro H; simpl in *; [contradiction| |].
+  - destruct H as [<-|H]; [left; reflexivity | right; apply IHM; exact H].
+  - right. apply IHM. exact H.
+Qed.
+Lemma merge_in_r : forall A F kv f, Merge A F kv -> In f F -> In f kv.
+Proof.
+  intros A F kv f M. induction M; intro H; simpl in *; [contradiction| |].
+  - right. apply IHM. exact H.
+  - destruct H as [<-|H]; [left; reflexivity | right; apply IHM; exact H].
+Qed.
+Lemma merge_nil_l : forall F kv, Merge [] F kv -> kv = F.
+Proof. intros F kv M. remember [] as A. induction M; try discriminate; [reflexivity|]. f_equal. apply IHM. exact HeqA. Qed.
+
+Lemma blt_trans : forall a b c, blt a b -> blt b c -> blt a c.
+Proof. unfold blt. intros. eapply bytes_ltb_trans; eassumption. Qed.
+
+Lemma in_keys_put : forall k v s x, In x (map fst (kv_put k v s)) -> x = k \/ In x (map fst s).
+Proof.
+  induction s as [|[k' v'] s IH]; intros x H; simpl in H.
+  - destruct H as [<-|[]]. left. reflexivity.
+  - destruct (bytes_ltb k k').
+    + simpl in H. destruct H as [<-|H]; [left; reflexivity | right; exact H].
+    + destruct (bytes_eqb k k') eqn:E.
+      * simpl in H. destruct H as [<-|H]; [left; reflexivity | right; right; exact H].
+      * simpl in H. destruct H as [<-|H]; [right; left; reflexivity|].
+        destruct (IH x H) as [->|H2]; [left; reflexivity | right; right; exact H2].
+Qed.
+Lemma put_sorted : forall k v s, ksorted s -> ksorted (kv_put k v s).
+Proof.
+  unfold ksorted. induction s as [|[k' v'] s IH]; intro S; simpl.
+  - constructor; constructor.
+  - simpl in S. inversion S as [|? ? Ss Hk]; subst.
+    destruct (bytes_ltb k k') eqn:L.
+    + simpl. constructor; [exact S|]. constructor; [exact L|].
+      rewrite Forall_forall in Hk |- *. intros x Hx. eapply blt_trans; [exact L | apply Hk; exact Hx].
+    + destruct (bytes_eqb k k') eqn:E.
+      * apply bytes_eqb_eq in E. subst k'. simpl. constructor; assumption.
+      * simpl. constructor; [apply IH; exact Ss|].
+        rewrite Forall_forall in Hk |- *. intros x Hx. apply in_keys_put in Hx. destruct Hx as [->|Hx]; [|apply Hk; exact Hx].
+        unfold blt. apply bytes_eqb_neq in E.
+        destruct (bytes_ltb k' k) eqn:L2; [reflexivity|]. elim E. apply bytes_ltb_total; assumption.
+Qed.
+Lemma in_keys_delete : forall k s x, In x (map fst (kv_delete k s)) -> In x (map fst s).
+Proof.
+  induction s as [|[k' v'] s IH]; intros x H; simpl in H; [contradiction|].
+  destruct (bytes_eqb k k'); simpl in *; [right; exact H|]. destruct H as [<-|H]; [left; reflexivity | right; apply IH; exact H].
+Qed.
+Lemma delete_sorted : forall k s, ksorted s -> ksorted (kv_delete k s).
+Proof.
+  unfold ksorted. induction s as [|[k' v'] s IH]; intro S; simpl; [constructor|].
+  simpl in S. inversion S as [|? ? Ss Hk]; subst.
+  destruct (bytes_eqb k k'); [exact Ss|]. simpl. constructor; [apply IH; exact Ss|].
+  rewrite Forall_forall in Hk |- *. intros x Hx. apply Hk. eapply in_keys_delete. exact Hx.
 Qed.
 
-Lemma kv_scan_all : forall L, kv_scan event_prefix (kv_of L) = kv_of L.
+(* a new event whose key is above every event key goes to the end of the events *)
+Lemma merge_put_event : forall k v A F kv, Merge A F kv -> ksorted kv ->
+  (forall a, In a A -> blt (fst a) k) -> (forall f, In f F -> fst f <> k) ->
+  Merge (A ++ [(k, v)]) F (kv_put k v kv).
 Proof.
-  intro L. unfold kv_scan.
-  assert (A : kv_seek event_prefix (kv_of L) = kv_of L).
-  { destruct L as [|e L]; [reflexivity|]. simpl. rewrite key_not_below_prefix. reflexivity. }
-  rewrite A. clear A. induction L as [|e L IH]; [reflexivity|]. simpl. rewrite key_has_prefix. f_equal. exact IH.
+  intros k v A F kv M. induction M as [|a A F kv M IH|f A F kv M IH]; intros S HA HF.
+  - simpl. apply M_ev. apply M_nil.
+  - destruct a as [ka va]. cbn [kv_put List.app].
+    pose proof (HA (ka, va) (or_introl eq_refl)) as La. unfold blt in La. cbn [fst] in La.
+    rewrite (bytes_ltb_asym _ _ La).
+    assert (E : bytes_eqb k ka = false).
+    { apply bytes_eqb_neq. intro C. subst. rewrite bytes_ltb_irrefl in La. discriminate. }
+    rewrite E. apply M_ev. apply IH.
+    + unfold ksorted in *. simpl in S. inversion S; assumption.
+    + intros x Hx. apply HA. right. exact Hx.
+    + exact HF.
+  - destruct f as [kf vf]. cbn [kv_put].
+    destruct (bytes_ltb k kf) eqn:L.
+    + (* then there is no event at all: it would sit after kf and below k *)
+      destruct A as [|a A'].
+      * simpl. apply M_ev. apply M_fo. exact M.
+      * exfalso. pose proof (merge_in_l _ _ _ a M (or_introl eq_refl)) as Hin.
+        unfold ksorted in S. simpl in S. inversion S as [|? ? _ Hk]; subst. rewrite Forall_forall in Hk.
+        pose proof (Hk (fst a) (in_map fst _ _ Hin)) as L1. pose proof (HA a (or_introl eq_refl)) as L2.
+        unfold blt in *. pose proof (bytes_ltb_trans _ _ _ L2 L) as L3. pose proof (bytes_ltb_trans _ _ _ L3 L1) as L4.
+        rewrite bytes_ltb_irrefl in L4. discriminate.
+    + assert (E : bytes_eqb k kf = false).
+      { apply bytes_eqb_neq. intro C. apply (HF (kf, vf) (or_introl eq_refl)). symmetry. exact C. }
+      rewrite E. apply M_fo. apply IH.
+      * unfold ksorted in *. simpl in S. inversion S; assumption.
+      * exact HA.
+      * intros x Hx. apply HF. right. exact Hx.
 Qed.
 
-Lemma decode_kv_of : forall L s, ids_ok L s -> s < two64N -> decode_events (kv_of L) = L.
+(* deleting the key of one event *)
+Lemma merge_delete_event : forall id L s F kv, Merge (kv_of L) F kv -> ids_ok L s -> s < two64N -> id < two64N ->
+  (forall f, In f F -> fst f <> event_key id) ->
+  Merge (kv_of (filter (fun e => negb (N.eqb (e_id e) id)) L)) F (kv_delete (event_key id) kv).
 Proof.
-  intros L s [_ R] Hs. induction L as [|e L IH]; [reflexivity|].
-  inversion R as [|? ? [He1 He2] Rt]; subst. unfold decode_events in *. simpl.
-  rewrite key_roundtrip by (split; lia). simpl. destruct e; simpl. f_equal. apply IH. exact Rt.
+  intros id L s F kv M. remember (kv_of L) as A. revert L HeqA.
+  induction M as [|a A F kv M IH|f A F kv M IH]; intros L EA OK Hs Hid HF.
+  - destruct L; [|discriminate]. simpl. apply M_nil.
+  - destruct L as [|e L']; [discriminate|]. simpl in EA. inversion EA; subst a A. clear EA.
+    destruct OK as [S R]. simpl in S. inversion S as [|? ? St He]; subst. inversion R as [|? ? [He1 He2] Rt]; subst.
+    cbn [kv_delete key_of filter]. 
+    destruct (bytes_eqb (event_key id) (event_key (e_id e))) eqn:E.
+    + apply bytes_eqb_eq in E. apply key_inj in E; [|exact Hid|lia]. subst id.
+      rewrite N.eqb_refl. cbn [negb].
+      rewrite filter_id; [exact M|].
+      intros x Hx. apply negb_true_iff. apply N.eqb_neq.
+      rewrite Forall_forall in He. specialize (He (e_id x) (in_map _ _ _ Hx)). lia.
+    + assert (Ne : N.eqb (e_id e) id = false).
+      { apply N.eqb_neq. intro C. subst id. rewrite bytes_eqb_refl in E. discriminate. }
+      rewrite Ne. cbn [negb kv_of map]. fold (key_of e). apply M_ev.
+      apply (IH L' eq_refl); try assumption. split; assumption.
+  - destruct f as [kf vf]. cbn [kv_delete].
+    assert (E : bytes_eqb (event_key id) kf = false).
+    { apply bytes_eqb_neq. intro C. apply (HF (kf, vf) (or_introl eq_refl)). symmetry. exact C. }
+    rewrite E. apply M_fo. apply (IH L EA); try assumption. intros x Hx. apply HF. right. exact Hx.
+Qed.
+
+(* a foreign write that does not hit an event key *)
+Lemma merge_put_foreign : forall k ov A F kv, Merge A F kv -> (forall a, In a A -> fst a <> k) ->
+  exists F', Merge A F' (kv_put k ov kv) /\
+             (forall x, In x F' -> x = (k, ov) \/ In x F) /\ In (k, ov) F' /\
+             (forall x, In x F -> fst x <> k -> In x F').
+Proof.
+  intros k ov A F kv M. induction M as [|a A F kv M IH|f A F kv M IH]; intro HA.
+  - exists [(k, ov)]. simpl. split; [apply M_fo, M_nil|]. split; [intros x [<-|[]]; left; reflexivity|].
+    split; [left; reflexivity | intros x []].
+  - destruct a as [ka va]. cbn [kv_put].
+    assert (E : bytes_eqb k ka = false).
+    { apply bytes_eqb_neq. intro C. apply (HA (ka, va) (or_introl eq_refl)). symmetry. exact C. }
+    destruct (bytes_ltb k ka).
+    + exists ((k, ov) :: F). split; [apply M_fo, M_ev; exact M|].
+      split; [intros x [<-|H]; [left; reflexivity | right; exact H]|].
+      split; [left; reflexivity | intros x Hx _; right; exact Hx].
+    + rewrite E. destruct IH as [F' [M' [H1 [H2 H3]]]]; [intros x Hx; apply HA; right; exact Hx|].
+      exists F'. split; [apply M_ev; exact M' | auto].
+  - destruct f as [kf vf]. cbn [kv_put].
+    destruct (bytes_ltb k kf).
+    + exists ((k, ov) :: (kf, vf) :: F). split; [apply M_fo, M_fo; exact M|].
+      split; [intros x [<-|H]; [left; reflexivity | right; exact H]|].
+      split; [left; reflexivity | intros x Hx _; right; exact Hx].
+    + destruct (bytes_eqb k kf) eqn:E.
+      * apply bytes_eqb_eq in E. subst kf.
+        exists ((k, ov) :: F). split; [apply M_fo; exact M|].
+        split; [intros x [<-|H]; [left; reflexivity | right; right; exact H]|].
+        split; [left; reflexivity|]. intros x [<-|Hx] Hn; [elim Hn; reflexivity | right; exact Hx].
+      * destruct (IH HA) as [F' [M' [H1 [H2 H3]]]].
+        exists ((kf, vf) :: F'). split; [apply M_fo; exact M'|].
+        split; [intros x [<-|H]; [right; left; reflexivity | destruct (H1 x H) as [->|H']; [left; reflexivity | right; right; exact H']]|].
+        split; [right; exact H2|]. intros x [<-|Hx] Hn; [left; reflexivity | right; apply H3; assumption].
+Qed.
+
+(* ---- Scan: on a sorted bucket, Seek + while-HasPrefix is the filter of the prefixed keys ---- *)
+Lemma nonprefix_up : forall p k k', bytes_ltb k p = false -> has_prefix p k = false ->
+  bytes_ltb k k' = true -> has_prefix p k' = false.
+Proof.
+  induction p as [|c p IH]; intros k k' H1 H2 H3; [simpl in H2; discriminate|].
+  destruct k as [|x k]; [simpl in H1; discriminate|].
+  destruct k' as [|y k']; [simpl in H3; destruct (x :: k); discriminate|].
+  simpl in *.
+  destruct (byte_ltb x c) eqn:Lxc; [discriminate|].
+  destruct (byte_ltb c x) eqn:Lcx.
+  - (* x above c: y >= x is above c too *)
+    destruct (Ascii.eqb c y) eqn:Ecy; [|reflexivity]. apply Ascii.eqb_eq in Ecy. subst y.
+    destruct (byte_ltb x c) eqn:L1; [discriminate|]. rewrite Lcx in H3. discriminate.
+  - pose proof (byte_ltb_total _ _ Lxc Lcx) as ->.
+    rewrite Ascii.eqb_refl in H2. simpl in H2.
+    destruct (byte_ltb c y) eqn:Lcy.
+    + destruct (Ascii.eqb c y) eqn:Ecy; [|reflexivity]. apply Ascii.eqb_eq in Ecy. subst y.
+      rewrite byte_ltb_irrefl in Lcy. discriminate.
+    + destruct (byte_ltb y c) eqn:Lyc; [discriminate|].
+      pose proof (byte_ltb_total _ _ Lcy Lyc) as <-. rewrite Ascii.eqb_refl. simpl.
+      eapply IH; eassumption.
+Qed.
+
+Definition prefixed (p : bytes) (x : bytes * option (N * N)) : bool := has_prefix p (fst x).
+
+Lemma filter_none_kv : forall (f : bytes * option (N * N) -> bool) l, (forall x, In x l -> f x = false) -> filter f l = [].
+Proof.
+  induction l as [|a l IH]; intro H; [reflexivity|]. simpl. rewrite (H a (or_introl eq_refl)).
+  apply IH. intros x Hx. apply H. right. exact Hx.
+Qed.
+
+Lemma prefix_not_below : forall p k, has_prefix p k = true -> bytes_ltb k p = false.
+Proof. intros p k H. apply has_prefix_iff in H. destruct H as [r ->]. apply bytes_ltb_prefix_nlt. Qed.
+
+Lemma take_filter : forall p s, ksorted s ->
+  (match s with [] => True | x :: _ => bytes_ltb (fst x) p = false end) ->
+  take_prefixed p s = filter (prefixed p) s.
+Proof.
+  induction s as [|[k v] s IH]; intros S H; [reflexivity|].
+  unfold ksorted in S. simpl in S. inversion S as [|? ? Ss Hk]; subst. rewrite Forall_forall in Hk.
+  cbn [take_prefixed filter]. change (prefixed p (k, v)) with (has_prefix p k). destruct (has_prefix p k) eqn:E.
+  - f_equal. apply IH; [exact Ss|]. destruct s as [|[k2 v2] s2]; [exact I|]. cbn [fst].
+    specialize (Hk k2 (or_introl eq_refl)). unfold blt in Hk.
+    destruct (bytes_ltb k2 p) eqn:C; [|reflexivity].
+    pose proof (bytes_ltb_trans _ _ _ Hk C) as T. cbn [fst] in H. congruence.
+  - symmetry. apply filter_none_kv. intros [k2 v2] Hx. unfold prefixed. cbn [fst].
+    eapply nonprefix_up; [exact H | exact E | apply Hk; apply (in_map fst _ _ Hx)].
+Qed.
+Lemma scan_filter : forall p s, ksorted s -> kv_scan p s = filter (prefixed p) s.
+Proof.
+  intros p s S. unfold kv_scan. induction s as [|[k v] s IH]; [reflexivity|].
+  cbn [kv_seek]. destruct (bytes_ltb k p) eqn:L.
+  - cbn [filter]. change (prefixed p (k, v)) with (has_prefix p k). destruct (has_prefix p k) eqn:E.
+    + apply prefix_not_below in E. congruence.
+    + apply IH. unfold ksorted in *. simpl in S. inversion S; assumption.
+  - apply take_filter; [exact S | exact L].
+Qed.
+
+Lemma inert_not_event_key : forall f id, inert f -> fst f <> event_key id.
+Proof. intros f id [H _] C. apply H. rewrite C. apply event_key_length. Qed.
+
+(* what Recover decodes from the bucket: the events, nothing of the foreign entries *)
+Lemma decode_merge : forall L s F kv, Merge (kv_of L) F kv -> Forall inert F -> ids_ok L s -> s < two64N ->
+  decode_events (filter (prefixed event_prefix) kv) = L.
+Proof.
+  intros L s F kv M. remember (kv_of L) as A. revert L HeqA.
+  induction M as [|a A F kv M IH|f A F kv M IH]; intros L EA FI OK Hs.
+  - destruct L; [reflexivity | discriminate].
+  - destruct L as [|e L']; [discriminate|]. simpl in EA. inversion EA; subst a A. clear EA.
+    destruct OK as [S R]. simpl in S. inversion S as [|? ? St He]; subst. inversion R as [|? ? [He1 He2] Rt]; subst.
+    cbn [filter]. change (prefixed event_prefix (key_of e)) with (has_prefix event_prefix (event_key (e_id e))).
+    rewrite key_has_prefix.
+    unfold decode_events. cbn [flat_map]. unfold key_of at 1 2. cbn [fst snd]. rewrite key_roundtrip by (split; lia).
+    cbn [List.app]. destruct e as [i t it]. cbn [e_id e_typ e_item fst snd]. f_equal.
+    apply (IH L' eq_refl FI); [split; assumption | exact Hs].
+  - inversion FI as [|? ? If FI']; subst. cbn [filter]. destruct (prefixed event_prefix f) eqn:P.
+    + unfold decode_events. cbn [flat_map].
+      assert (D : match snd f with
+                  | None => []
+                  | Some ti => match parse_event_id (fst f) with Some id => [mkEntry id (fst ti) (snd ti)] | None => [] end
+                  end = []).
+      { destruct If as [_ [H|[H|H]]].
+        - unfold prefixed in P. congruence.
+        - rewrite H. destruct (snd f); reflexivity.
+        - rewrite H. reflexivity. }
+      rewrite D. cbn [List.app]. apply (IH L eq_refl FI' OK Hs).
+    + apply (IH L eq_refl FI' OK Hs).
+Qed.
+
+Record wfkv (kv : kvstore) (L : list entry) (F : kvstore) : Prop := mkWf {
+  w_merge : Merge (kv_of L) F kv; w_sorted : ksorted kv; w_inert : Forall inert F }.
+
+Lemma wf_decode : forall kv L F s, wfkv kv L F -> ids_ok L s -> s < two64N ->
+  decode_events (kv_scan event_prefix kv) = L.
+Proof.
+  intros kv L F s [M S I] OK Hs. rewrite (scan_filter _ _ S). eapply decode_merge; eassumption.
+Qed.
+
+Lemma wf_put_event : forall kv L F s id t i, wfkv kv L F -> ids_ok L s -> s < id -> id < two64N ->
+  wfkv (kv_put (event_key id) (Some (t, i)) kv) (L ++ [mkEntry id t i]) F.
+Proof.
+  intros kv L F s id t i [M S I] [_ R] Hs Hid. constructor; [|apply put_sorted; exact S | exact I].
+  unfold kv_of. rewrite map_app. cbn [map key_of e_id e_typ e_item].
+  apply merge_put_event; [exact M | exact S | |].
+  - intros a Ha. apply in_map_iff in Ha. destruct Ha as [e [<- He]]. cbn [key_of fst].
+    rewrite Forall_forall in R. specialize (R e He). unfold blt. apply key_order; lia.
+  - intros f Hf. apply inert_not_event_key. rewrite Forall_forall in I. apply I. exact Hf.
+Qed.
+
+Lemma wf_delete_event : forall kv L F s id, wfkv kv L F -> ids_ok L s -> s < two64N -> id < two64N ->
+  wfkv (kv_delete (event_key id) kv) (filter (fun e => negb (N.eqb (e_id e) id)) L) F.
+Proof.
+  intros kv L F s id [M S I] OK Hs Hid. constructor; [|apply delete_sorted; exact S | exact I].
+  eapply merge_delete_event; try eassumption.
+  intros f Hf. apply inert_not_event_key. rewrite Forall_forall in I. apply I. exact Hf.
+Qed.
+
+Lemma wf_put_foreign : forall kv L F k ov, wfkv kv L F -> inert (k, ov) ->
+  exists F', wfkv (kv_put k ov kv) L F' /\
+             (forall x, In x F' -> x = (k, ov) \/ In x F) /\ In (k, ov) F' /\
+             (forall x, In x F -> fst x <> k -> In x F').
+Proof.
+  intros kv L F k ov [M S I] Hi.
+  destruct (merge_put_foreign k ov _ _ _ M) as [F' [M' [H1 [H2 H3]]]].
+  - intros a Ha. apply in_map_iff in Ha. destruct Ha as [e [<- He]]. cbn [key_of fst].
+    intro C. apply (inert_not_event_key (k, ov) (e_id e) Hi). symmetry. exact C.
+  - exists F'. split; [|auto]. constructor; [exact M' | apply put_sorted; exact S|].
+    rewrite Forall_forall in I |- *. intros x Hx. destruct (H1 x Hx) as [->|Hx']; [exact Hi | apply I; exact Hx'].
 Qed.
 
 (* ================================================================== *)
@@ -163,28 +420,29 @@ Qed.
 Lemma filter_not_in_nil : forall L : list entry, filter (not_in []) L = L.
 Proof. induction L as [|e L IH]; [reflexivity|]. simpl. f_equal. exact IH. Qed.
 
-Lemma replay_entries : forall regs oc E L s,
-  ids_ok L s -> s < two64N -> Forall (fun e => e_id e < two64N) E ->
-  replay regs oc E (kv_of L) =
-  (kv_of (filter (not_in (removed_by (expected_calls regs oc E))) L), expected_calls regs oc E).
+Lemma replay_wf : forall regs oc E kv L F s,
+  wfkv kv L F -> ids_ok L s -> s < two64N -> Forall (fun e => e_id e < two64N) E ->
+  exists kv', replay regs oc E kv = (kv', expected_calls regs oc E) /\
+              wfkv kv' (filter (not_in (removed_by (expected_calls regs oc E))) L) F.
 Proof.
-  intros regs oc E. induction E as [|e E IH]; intros L s OK Hs FE.
-  - simpl. rewrite filter_not_in_nil. reflexivity.
+  intros regs oc E. induction E as [|e E IH]; intros kv L F s W OK Hs FE.
+  - simpl. exists kv. split; [reflexivity|]. rewrite filter_not_in_nil. exact W.
   - inversion FE as [|? ? He FE']; subst. simpl.
-    destruct (negb (memN (e_typ e) regs)); [apply (IH L s); assumption|].
+    destruct (negb (memN (e_typ e) regs)); [apply (IH kv L F s); assumption|].
     set (o := lookup_oc (e_item e) oc).
     destruct (removes o) eqn:Rm.
-    + rewrite (kv_delete_filter L s (e_id e) OK Hs He).
+    + pose proof (wf_delete_event kv L F s (e_id e) W OK Hs He) as W'.
       destruct (crashes o) eqn:Cr.
-      * unfold removed_by. simpl. rewrite Rm. simpl.
-        rewrite <- filter_filter_ids, filter_not_in_nil. reflexivity.
-      * rewrite (IH _ s (ids_ok_filter _ _ _ OK) Hs FE').
-        unfold removed_by at 2. simpl. rewrite Rm. simpl. fold (removed_by (expected_calls regs oc E)).
-        rewrite filter_filter_ids. reflexivity.
+      * eexists. split; [reflexivity|]. unfold removed_by. simpl. rewrite Rm. simpl.
+        rewrite <- filter_filter_ids, filter_not_in_nil. exact W'.
+      * destruct (IH _ _ F s W' (ids_ok_filter _ _ _ OK) Hs FE') as [kv' [E1 W2]].
+        rewrite E1. eexists. split; [reflexivity|].
+        unfold removed_by at 1. simpl. rewrite Rm. simpl. fold (removed_by (expected_calls regs oc E)).
+        rewrite <- filter_filter_ids. exact W2.
     + destruct (crashes o) eqn:Cr.
-      * unfold removed_by. simpl. rewrite Rm. simpl. rewrite filter_not_in_nil. reflexivity.
-      * rewrite (IH L s OK Hs FE').
-        unfold removed_by at 2. simpl. rewrite Rm. fold (removed_by (expected_calls regs oc E)). reflexivity.
+      * eexists. split; [reflexivity|]. unfold removed_by. simpl. rewrite Rm. simpl. rewrite filter_not_in_nil. exact W.
+      * destruct (IH kv L F s W OK Hs FE') as [kv' [E1 W2]]. rewrite E1. eexists. split; [reflexivity|].
+        unfold removed_by at 1. simpl. rewrite Rm. fold (removed_by (expected_calls regs oc E)). exact W2.
 Qed.
 
 (* ================================================================== *)
@@ -255,9 +513,20 @@ Proof.
   apply filter_not_in_app.
 Qed.
 
-(* the invariant tying the state to the trace *)
-Record inv (tr : trace) (st : state) : Prop := mkInv {
-  i_kv : kv st = kv_of (live tr);
+(* keys written by the foreign writer *)
+Definition injected (tr : trace) : list bytes :=
+  flat_map (fun x => match fst x with Inject k _ => [k] | _ => [] end) tr.
+Lemma injected_snoc : forall tr x, injected (tr ++ [x]) = injected tr ++ injected [x].
+Proof. intros. unfold injected. rewrite flat_map_app. reflexivity. Qed.
+
+(* every foreign write of the history is inert *)
+Definition op_inert (o : op) : Prop := match o with Inject k v => inert (k, v) | _ => True end.
+
+(* the invariant tying the state to the trace; F = the foreign entries in the bucket *)
+Record inv (tr : trace) (st : state) (F : kvstore) : Prop := mkInv {
+  i_kv : wfkv (kv st) (live tr) F;
+  i_fkeys : forall x, In x F -> In (fst x) (injected tr);
+  i_fkept : forall k, In k (injected tr) -> exists ov, In (k, ov) F;
   i_sorted : StronglySorted N.lt (logged_ids tr);
   i_range : Forall (fun id => 1 <= id /\ id <= seq st) (logged_ids tr);
   i_removed : Forall (fun id => id <= seq st) (removed_ids tr);
@@ -274,11 +543,11 @@ Proof.
   apply in_map_iff in Hx. destruct Hx as [y [<- Hy]]. apply filter_In in Hy. apply in_map. tauto.
 Qed.
 
-Lemma inv_live_ok : forall tr st, inv tr st -> ids_ok (live tr) (seq st).
+Lemma inv_live_ok : forall tr st F, inv tr st F -> ids_ok (live tr) (seq st).
 Proof.
-  intros tr st I. split.
-  - unfold live. apply sorted_filter. exact (i_sorted _ _ I).
-  - pose proof (i_range _ _ I) as R. rewrite Forall_forall in R |- *.
+  intros tr st F I. split.
+  - unfold live. apply sorted_filter. exact (i_sorted _ _ _ I).
+  - pose proof (i_range _ _ _ I) as R. rewrite Forall_forall in R |- *.
     intros e He. unfold live in He. apply filter_In in He. apply R. unfold logged_ids. apply in_map. tauto.
 Qed.
 
@@ -291,7 +560,7 @@ Qed.
 
 Lemma seq_mono : forall st o st' r, step st o = (st', r) -> seq st <= seq st'.
 Proof.
-  intros st o st' r H. destruct o as [t i e|k|b rs|oc]; simpl in H.
+  intros st o st' r H. destruct o as [t i e|k|b rs|oc|ik iv]; simpl in H.
   - destruct (negb (memN t (reg st))); [inversion H; lia|].
     destruct (negb e); inversion H; simpl; lia.
   - destruct (nth_error (issued st) k) as [[id g]|]; [|inversion H; lia].
@@ -299,6 +568,7 @@ Proof.
   - inversion H; simpl; lia.
   - destruct (replay (reg st) oc (decode_events (kv_scan event_prefix (kv st))) (kv st)).
     inversion H; simpl; lia.
+  - inversion H; simpl; lia.
 Qed.
 
 Lemma Forall_le_mono : forall (l : list N) a b, a <= b -> Forall (fun id => id <= a) l -> Forall (fun id => id <= b) l.
@@ -319,31 +589,41 @@ Proof.
   apply filter_In in Hc. exists c. tauto.
 Qed.
 
-(* one step preserves the invariant (as long as the sequence stays below 2^64) *)
-Lemma step_inv : forall tr st o st' r,
-  inv tr st -> step st o = (st', r) -> seq st' < two64N -> inv (tr ++ [(o, r)]) st'.
+(* one step preserves the invariant (as long as the sequence stays below 2^64 and foreign writes are inert) *)
+Lemma step_inv : forall tr st F o st' r,
+  inv tr st F -> step st o = (st', r) -> seq st' < two64N -> op_inert o ->
+  exists F', inv (tr ++ [(o, r)]) st' F'.
 Proof.
-  intros tr st o st' r I H B.
+  intros tr st F o st' r I H B Hin.
   pose proof (seq_mono _ _ _ _ H) as Mono.
-  pose proof (inv_live_ok _ _ I) as OK.
-  destruct I as [Ikv Isort Irange Irem Iiss].
-  destruct o as [t i e|k|b rs|oc]; simpl in H.
+  pose proof (inv_live_ok _ _ _ I) as OK.
+  destruct I as [Ikv Ifk Ifp Isort Irange Irem Iiss].
+  assert (Same : forall o' r', o' = o -> r' = r ->
+                 logged [(o', r')] = [] -> removed_ids [(o', r')] = [] -> injected [(o', r')] = [] ->
+                 kv st' = kv st -> seq st <= seq st' -> Forall (fun p => fst p <= seq st') (issued st') ->
+                 exists F', inv (tr ++ [(o, r)]) st' F').
+  { intros o' r' -> -> E1 E2 E3 Ek Es Ei. exists F.
+    constructor; unfold live, logged_ids; rewrite ?logged_snoc, ?removed_snoc, ?injected_snoc, ?E1, ?E2, ?E3, ?app_nil_r, ?Ek;
+      try assumption.
+    - rewrite Forall_forall in Irange |- *. intros y Hy. specialize (Irange y Hy). lia.
+    - eapply Forall_le_mono; [|exact Irem]. lia. }
+  destruct o as [t i e|k|b rs|oc|ik iv]; simpl in H.
   - (* Log *)
     destruct (negb (memN t (reg st))) eqn:Ereg.
-    { inversion H; subst st' r. constructor; simpl;
-        unfold live, logged_ids; rewrite ?logged_snoc, ?removed_snoc; simpl; rewrite ?app_nil_r; assumption. }
+    { inversion H; subst st' r. eapply Same; [reflexivity | reflexivity | ..]; try reflexivity; try assumption; try lia. }
     destruct (negb e) eqn:Eenc.
-    { inversion H; subst st' r. constructor; simpl;
-        unfold live, logged_ids; rewrite ?logged_snoc, ?removed_snoc; simpl; rewrite ?app_nil_r; assumption. }
-    inversion H; subst st' r. clear H. simpl in *.
+    { inversion H; subst st' r. eapply Same; [reflexivity | reflexivity | ..]; try reflexivity; try assumption; try lia. }
+    inversion H; subst st' r. clear H Same. simpl in *.
     set (id := seq st + 1) in *.
     assert (Fresh : memN id (removed_ids tr) = false).
     { destruct (memN id (removed_ids tr)) eqn:E; [|reflexivity]. apply memN_In in E.
       rewrite Forall_forall in Irem. specialize (Irem _ E). lia. }
-    constructor; simpl.
+    exists F. constructor; simpl.
     + unfold live. rewrite logged_snoc, removed_snoc. simpl. rewrite app_nil_r.
       rewrite filter_app. simpl. unfold not_in at 2. simpl. rewrite Fresh. simpl.
-      rewrite Ikv. eapply kv_put_append; [exact OK | lia | exact B].
+      eapply wf_put_event; [exact Ikv | exact OK | lia | exact B].
+    + rewrite injected_snoc. simpl. rewrite app_nil_r. exact Ifk.
+    + rewrite injected_snoc. simpl. rewrite app_nil_r. exact Ifp.
     + unfold logged_ids. rewrite logged_snoc, map_app. simpl. apply ss_snoc; [exact Isort|].
       rewrite Forall_forall in Irange |- *. intros y Hy. specialize (Irange y Hy). lia.
     + unfold logged_ids. rewrite logged_snoc, map_app. simpl. apply Forall_app. split.
@@ -354,39 +634,37 @@ Proof.
       rewrite Forall_forall in Iiss |- *. intros p Hp. specialize (Iiss p Hp). lia.
   - (* Commit *)
     destruct (nth_error (issued st) k) as [[id g]|] eqn:En.
-    2:{ inversion H; subst st' r. constructor; simpl;
-        unfold live, logged_ids; rewrite ?logged_snoc, ?removed_snoc; simpl; rewrite ?app_nil_r; assumption. }
+    2:{ inversion H; subst st' r. eapply Same; [reflexivity | reflexivity | ..]; try reflexivity; try assumption; try lia. }
     destruct (N.eqb g (gen st)).
-    2:{ inversion H; subst st' r. constructor; simpl;
-        unfold live, logged_ids; rewrite ?logged_snoc, ?removed_snoc; simpl; rewrite ?app_nil_r; assumption. }
-    inversion H; subst st' r. clear H. simpl in *.
+    2:{ inversion H; subst st' r. eapply Same; [reflexivity | reflexivity | ..]; try reflexivity; try assumption; try lia. }
+    inversion H; subst st' r. clear H Same. simpl in *.
     assert (Hid : id <= seq st).
     { apply nth_error_In in En. rewrite Forall_forall in Iiss. apply (Iiss _ En). }
-    constructor; simpl.
+    exists F. constructor; simpl.
     + unfold live. rewrite logged_snoc, removed_snoc. simpl. rewrite app_nil_r.
-      rewrite filter_not_in_app. fold (live tr). rewrite Ikv.
-      rewrite (kv_delete_filter _ _ id OK B) by lia.
-      f_equal. apply filter_ext. intro x. unfold not_in. simpl. rewrite orb_false_r. reflexivity.
+      rewrite filter_not_in_app. fold (live tr).
+      assert (E : filter (not_in [id]) (live tr) = filter (fun e => negb (N.eqb (e_id e) id)) (live tr)).
+      { apply filter_ext. intro x. unfold not_in. simpl. rewrite orb_false_r. reflexivity. }
+      rewrite E. eapply wf_delete_event; [exact Ikv | exact OK | exact B | lia].
+    + rewrite injected_snoc. simpl. rewrite app_nil_r. exact Ifk.
+    + rewrite injected_snoc. simpl. rewrite app_nil_r. exact Ifp.
     + unfold logged_ids. rewrite logged_snoc. simpl. rewrite app_nil_r. exact Isort.
     + unfold logged_ids. rewrite logged_snoc. simpl. rewrite app_nil_r. exact Irange.
     + rewrite removed_snoc. simpl. apply Forall_app. split; [exact Irem | constructor; [exact Hid|constructor]].
     + exact Iiss.
   - (* Reopen *)
-    inversion H; subst st' r. clear H. simpl in *.
-    constructor; simpl; unfold live, logged_ids; rewrite ?logged_snoc, ?removed_snoc; simpl; rewrite ?app_nil_r.
-    + exact Ikv.
-    + exact Isort.
-    + rewrite Forall_forall in Irange |- *. intros y Hy. specialize (Irange y Hy). lia.
-    + eapply Forall_le_mono; [|exact Irem]. lia.
-    + rewrite Forall_forall in Iiss |- *. intros p Hp. specialize (Iiss p Hp). lia.
+    inversion H; subst st' r. simpl in *. eapply Same; [reflexivity | reflexivity | ..]; try reflexivity; simpl; try lia.
+    all: try (rewrite Forall_forall in Iiss |- *; intros p Hp; specialize (Iiss p Hp); lia).
   - (* Recover *)
     assert (Bs : seq st < two64N) by lia.
-    rewrite Ikv, kv_scan_all, (decode_kv_of _ _ OK Bs) in H.
-    rewrite (replay_entries (reg st) oc (live tr) (live tr) (seq st) OK Bs) in H.
-    2:{ destruct OK as [_ R]. rewrite Forall_forall in R |- *. intros x Hx. specialize (R x Hx). lia. }
-    inversion H; subst st' r. clear H. simpl in *.
-    constructor; simpl.
-    + rewrite live_snoc_recover. reflexivity.
+    rewrite (wf_decode _ _ _ _ Ikv OK Bs) in H.
+    destruct (replay_wf (reg st) oc (live tr) (kv st) (live tr) F (seq st) Ikv OK Bs) as [kv' [E1 W']].
+    { destruct OK as [_ R]. rewrite Forall_forall in R |- *. intros x Hx. specialize (R x Hx). lia. }
+    rewrite E1 in H. inversion H; subst st' r. clear H Same. simpl in *.
+    exists F. constructor; simpl.
+    + rewrite live_snoc_recover. exact W'.
+    + rewrite injected_snoc. simpl. rewrite app_nil_r. exact Ifk.
+    + rewrite injected_snoc. simpl. rewrite app_nil_r. exact Ifp.
     + unfold logged_ids. rewrite logged_snoc. simpl. rewrite app_nil_r. exact Isort.
     + unfold logged_ids. rewrite logged_snoc. simpl. rewrite app_nil_r. exact Irange.
     + rewrite removed_snoc. simpl. rewrite app_nil_r. apply Forall_app. split; [exact Irem|].
@@ -394,10 +672,30 @@ Proof.
       apply expected_calls_sub in Hc. destruct OK as [_ R]. rewrite Forall_forall in R.
       specialize (R _ Hc). lia.
     + exact Iiss.
+  - (* Inject: an inert foreign write *)
+    inversion H; subst st' r. clear H Same. simpl in *.
+    destruct (wf_put_foreign _ _ _ ik iv Ikv Hin) as [F' [W' [H1 [H2 H3]]]].
+    exists F'. constructor; simpl;
+      unfold live, logged_ids; rewrite ?logged_snoc, ?removed_snoc, ?injected_snoc; simpl; rewrite ?app_nil_r; try assumption.
+    + intros x Hx. apply in_or_app. destruct (H1 x Hx) as [->|Hx']; [right; left; reflexivity | left; apply Ifk; exact Hx'].
+    + intros k Hk. apply in_app_or in Hk. destruct Hk as [Hk|[<-|[]]]; [|exists iv; exact H2].
+      destruct (Ifp k Hk) as [ov Hov].
+      destruct (bytes_eqb k ik) eqn:E.
+      * apply bytes_eqb_eq in E. subst k. exists iv. exact H2.
+      * exists ov. apply H3; [exact Hov|]. cbn [fst]. apply bytes_eqb_neq. exact E.
 Qed.
 
-Lemma inv_init : forall regs, inv [] (init regs).
-Proof. intro. constructor; simpl; try constructor. Qed.
+Lemma inv_init : forall regs, inv [] (init regs) [].
+Proof.
+  intro regs. constructor; simpl.
+  - constructor; [apply M_nil | constructor | constructor].
+  - intros x H. destruct H.
+  - intros k H. destruct H.
+  - constructor.
+  - constructor.
+  - constructor.
+  - constructor.
+Qed.
 
 Lemma run_seq_mono : forall ops st tr st', run st ops = (tr, st') -> seq st <= seq st'.
 Proof.
@@ -407,15 +705,19 @@ Proof.
     apply seq_mono in E. apply IH in R. lia.
 Qed.
 
+Lemma Forall_app_l : forall (A : Type) (P : A -> Prop) a b, Forall P (a ++ b) -> Forall P a.
+Proof. intros A P a b H. apply Forall_app in H. tauto. Qed.
+
 Lemma run_inv : forall regs ops tr st,
-  run (init regs) ops = (tr, st) -> seq st < two64N -> inv tr st.
+  run (init regs) ops = (tr, st) -> seq st < two64N -> Forall op_inert ops -> exists F, inv tr st F.
 Proof.
-  intros regs ops. induction ops as [|o ops IH] using rev_ind; intros tr st H B.
-  - simpl in H. inversion H; subst. apply inv_init.
+  intros regs ops. induction ops as [|o ops IH] using rev_ind; intros tr st H B HI.
+  - simpl in H. inversion H; subst. exists []. apply inv_init.
   - rewrite run_app in H. destruct (run (init regs) ops) as [tr1 st1] eqn:R1.
     simpl in H. destruct (step st1 o) as [st2 r] eqn:E. inversion H; subst tr st. clear H.
-    eapply step_inv; [apply (IH tr1 st1 eq_refl)| exact E | exact B].
-    apply seq_mono in E. lia.
+    apply Forall_app in HI. destruct HI as [HI1 HI2]. inversion HI2; subst.
+    destruct (IH tr1 st1 eq_refl) as [F I]; [apply seq_mono in E; lia | exact HI1|].
+    eapply step_inv; eassumption.
 Qed.
 
 (* ================================================================== *)
@@ -424,32 +726,34 @@ Qed.
 (* ids returned by Log strictly increase over the whole history (across Reopen and crashed
    Logs), so none is ever reused; bbolt starts at 1 *)
 Lemma ids_fresh : forall regs ops tr st,
-  run (init regs) ops = (tr, st) -> seq st < two64N ->
+  run (init regs) ops = (tr, st) -> seq st < two64N -> Forall op_inert ops ->
   StronglySorted N.lt (logged_ids tr) /\ Forall (fun id => 1 <= id /\ id <= seq st) (logged_ids tr).
-Proof. intros regs ops tr st H B. pose proof (run_inv _ _ _ _ H B) as I. split; [apply I | apply I]. Qed.
+Proof. intros regs ops tr st H B HI. destruct (run_inv _ _ _ _ H B HI) as [F I]. split; [apply I | apply I]. Qed.
 
-(* the file holds exactly the events logged and not removed, in id order *)
+(* the file holds exactly the events logged and not removed, in id order, interleaved with the
+   foreign entries F, which are exactly the (last) foreign writes of the history: none was deleted *)
 Lemma state_is_live : forall regs ops tr st,
-  run (init regs) ops = (tr, st) -> seq st < two64N ->
-  kv st = kv_of (live tr) /\ ids_ok (live tr) (seq st).
-Proof. intros regs ops tr st H B. pose proof (run_inv _ _ _ _ H B) as I. split; [apply I | apply inv_live_ok; exact I]. Qed.
-
-Lemma reopen_snapshot : forall regs ops tr st b rs,
-  run (init regs) ops = (tr, st) -> seq st < two64N ->
-  snd (step st (Reopen b rs)) = RReopened (kv_of (live tr)).
-Proof. intros. simpl. destruct (state_is_live _ _ _ _ H H0) as [-> _]. reflexivity. Qed.
+  run (init regs) ops = (tr, st) -> seq st < two64N -> Forall op_inert ops ->
+  exists F, wfkv (kv st) (live tr) F /\ ids_ok (live tr) (seq st) /\
+            (forall x, In x F -> In (fst x) (injected tr)) /\
+            (forall k, In k (injected tr) -> exists ov, In (k, ov) F).
+Proof.
+  intros regs ops tr st H B HI. destruct (run_inv _ _ _ _ H B HI) as [F I]. exists F.
+  split; [apply I|]. split; [eapply inv_live_ok; exact I|]. split; [apply I | apply I].
+Qed.
 
 Lemma recover_step : forall regs ops tr st oc,
-  run (init regs) ops = (tr, st) -> seq st < two64N ->
-  step st (Recover oc) =
-  (mkState (seq st) (kv_of (filter (not_in (removed_by (expected_calls (reg st) oc (live tr)))) (live tr)))
-           (reg st) (gen st) (issued st),
-   RRecovered (expected_calls (reg st) oc (live tr))).
+  run (init regs) ops = (tr, st) -> seq st < two64N -> Forall op_inert ops ->
+  exists st', step st (Recover oc) = (st', RRecovered (expected_calls (reg st) oc (live tr))) /\
+    seq st' = seq st /\ reg st' = reg st /\ gen st' = gen st /\ issued st' = issued st /\
+    exists F, wfkv (kv st') (filter (not_in (removed_by (expected_calls (reg st) oc (live tr)))) (live tr)) F.
 Proof.
-  intros regs ops tr st oc H B. destruct (state_is_live _ _ _ _ H B) as [Ikv OK].
-  simpl. rewrite Ikv, kv_scan_all, (decode_kv_of _ _ OK B).
-  rewrite (replay_entries (reg st) oc (live tr) (live tr) (seq st) OK B); [reflexivity|].
-  destruct OK as [_ R]. rewrite Forall_forall in R |- *. intros x Hx. specialize (R x Hx). lia.
+  intros regs ops tr st oc H B HI. destruct (state_is_live _ _ _ _ H B HI) as [F [W [OK _]]].
+  simpl. rewrite (wf_decode _ _ _ _ W OK B).
+  destruct (replay_wf (reg st) oc (live tr) (kv st) (live tr) F (seq st) W OK B) as [kv' [E1 W']].
+  { destruct OK as [_ R]. rewrite Forall_forall in R |- *. intros x Hx. specialize (R x Hx). lia. }
+  rewrite E1. eexists. split; [reflexivity|]. cbn [seq reg gen issued kv]. repeat split; try reflexivity.
+  exists F. exact W'.
 Qed.
 
 (* sub-sequence: order and multiplicity are inherited from the live list *)
@@ -536,11 +840,12 @@ Definition replay_spec (tr : trace) (regs : list N) (oc : list (N * outcome)) (c
   (forall pre c post, calls = pre ++ c :: post -> crashes (snd c) = true -> post = []).
 
 Lemma replay_theorem : forall regs ops tr st oc,
-  run (init regs) ops = (tr, st) -> seq st < two64N ->
+  run (init regs) ops = (tr, st) -> seq st < two64N -> Forall op_inert ops ->
   exists st' calls, step st (Recover oc) = (st', RRecovered calls) /\ replay_spec tr (reg st) oc calls.
 Proof.
-  intros regs ops tr st oc H B. eexists. eexists. split; [apply (recover_step _ _ _ _ _ H B)|].
-  destruct (state_is_live _ _ _ _ H B) as [_ [Srt _]].
+  intros regs ops tr st oc H B HI. destruct (recover_step _ _ _ _ oc H B HI) as [st' [E _]].
+  exists st'. eexists. split; [exact E|].
+  destruct (state_is_live _ _ _ _ H B HI) as [F0 [_ [[Srt _] _]]].
   unfold replay_spec. split; [reflexivity|]. split; [|split; [|split; [|split]]].
   - intros c Hc. pose proof (expected_calls_sub _ _ _ _ Hc) as Hin. apply in_live in Hin.
     destruct (expected_calls_outcome _ _ _ _ Hc) as [Ho _]. tauto.
@@ -562,27 +867,24 @@ Qed.
 
 (* C16_removed_iff: after a recovery an event is gone iff its handler succeeded or declared it unnecessary *)
 Lemma removed_iff : forall regs ops tr st oc st' calls,
-  run (init regs) ops = (tr, st) -> seq st < two64N ->
+  run (init regs) ops = (tr, st) -> seq st < two64N -> Forall op_inert ops ->
   step st (Recover oc) = (st', RRecovered calls) ->
-  kv st' = kv_of (live (tr ++ [(Recover oc, RRecovered calls)])) /\
+  (exists F, wfkv (kv st') (live (tr ++ [(Recover oc, RRecovered calls)])) F) /\
   forall e, In e (live tr) ->
     (~ In e (live (tr ++ [(Recover oc, RRecovered calls)])) <->
      exists o, In (e, o) calls /\ (o = OOk \/ o = ONotNeeded)).
 Proof.
-  intros regs ops tr st oc st' calls H B E.
-  pose proof (run_snoc _ _ _ _ _ _ _ H E) as H2.
-  assert (B2 : seq st' < two64N).
-  { rewrite (recover_step _ _ _ _ _ H B) in E. inversion E; subst. simpl. exact B. }
-  destruct (state_is_live _ _ _ _ H2 B2) as [K2 _]. split; [exact K2|].
-  destruct (state_is_live _ _ _ _ H B) as [_ [Srt Rng]].
+  intros regs ops tr st oc st' calls H B HI E.
+  destruct (recover_step _ _ _ _ oc H B HI) as [st2 [E2 [_ [_ [_ [_ [F W]]]]]]].
+  rewrite E2 in E. inversion E; subst st2 calls. clear E.
+  split; [exists F; rewrite live_snoc_recover; exact W|].
+  destruct (state_is_live _ _ _ _ H B HI) as [F0 [_ [[Srt Rng] _]]].
   intros e He.
   rewrite live_snoc_recover, filter_In. unfold not_in. rewrite negb_true_iff.
-  rewrite (recover_step _ _ _ _ _ H B) in E. inversion E; subst calls. clear E.
   split.
   - intro N. destruct (memN (e_id e) (removed_by (expected_calls (reg st) oc (live tr)))) eqn:M; [|tauto].
     apply memN_In, removed_by_sub in M. destruct M as [c [Hc [Eid Rm]]].
     pose proof (expected_calls_sub _ _ _ _ Hc) as Hin.
-    (* same id in a strictly sorted list: same entry *)
     assert (fst c = e) by (eapply sorted_same_id; eassumption).
     exists (snd c). split; [rewrite <- H0; destruct c; exact Hc|].
     destruct (snd c); simpl in Rm; try discriminate; auto.
@@ -591,6 +893,18 @@ Proof.
     { unfold removed_by. apply in_map_iff. exists (e, o). split; [reflexivity|]. apply filter_In.
       split; [exact Hc|]. destruct Ho as [-> | ->]; reflexivity. }
     apply memN_In in H0. congruence.
+Qed.
+
+(* a foreign entry Recover CAN take for an event (parsable key under /events/, decodable value) is
+   handed to its handler although nothing logged it -- the WAL trusts its file *)
+Lemma wellformed_foreign_event_is_replayed :
+  exists ops oc calls, ~ op_inert (nth 0 ops (Commit 0)) /\
+    snd (step (snd (run (init [0]) ops)) (Recover oc)) = RRecovered calls /\
+    logged (fst (run (init [0]) ops)) = [] /\ calls <> [].
+Proof.
+  exists [Inject (s2l "/events/a") (Some (0, 77))], [], [(mkEntry 10 0 77, OOk)].
+  split; [|vm_compute; repeat split; try reflexivity; discriminate].
+  simpl. intros [_ [H|[H|H]]]; vm_compute in H; discriminate.
 Qed.
 
 (* hypotheses are satisfiable and the statements are not vacuous *)
